@@ -40,6 +40,43 @@ def calls_in(fn, fq=None, pred=None):
     return out
 
 
+def every_path_calls(fn, start_elem, pred, until_elem=None):
+    """True when every control path from element start_elem to the function exit (or to element until_elem) executes, after
+    start_elem, a call element satisfying pred; otherwise the list of blocks of one offending path"""
+    sb, sp = fn.block_of[start_elem['i']], fn.pos_of[start_elem['i']]
+    hitpos = {}
+    for _, e in fn.elements():
+        if e['k'] in CALL_KINDS and pred(e):
+            hitpos.setdefault(fn.block_of[e['i']], []).append(fn.pos_of[e['i']])
+    ub = up = None
+    if until_elem is not None:
+        ub, up = fn.block_of[until_elem['i']], fn.pos_of[until_elem['i']]
+    # the start block: a hit after the start position (and before the target, if it is in the same block)
+    if any(x > sp and (ub != sb or up < sp or x < up) for x in hitpos.get(sb, [])):
+        return True
+    if ub == sb and up > sp:
+        return [sb]
+    seen, st = set(), [(s, [sb, s]) for s in fn.succs(sb) if s is not None]
+    while st:
+        b, path = st.pop()
+        if b in seen:
+            continue
+        seen.add(b)
+        hp = hitpos.get(b, [])
+        if until_elem is not None and b == ub:
+            if any(x < up for x in hp):
+                continue
+            return path
+        if hp:
+            continue
+        succ = [s for s in fn.succs(b) if s is not None]
+        if until_elem is None and (b == fn.exit or not succ):
+            return path
+        for s in succ:
+            st.append((s, path + [s]))
+    return True
+
+
 def field_writes(fx):
     """field qualified name -> [(Fn, element, kind)] for assignments / compound assignments /
     inc-dec whose destination is (a sub-object of) that field, plus constructor initialisers."""
@@ -116,3 +153,46 @@ def enclosing_roots(fn, elem_id):
         cur = ps[0]
         seen += 1
     return cur
+
+
+def signdiff_sites(fn):
+    """comparisons with 0 of a signed value that is the difference of two unsigned values of 32 bits or more (`int d = a - b; if (d < 0)`):
+    the sign of a wrapped difference is not the order of a and b once they are 2^31 or more apart.  -> [(cmp element, text)]"""
+    from .cfg import int_type
+    out = []
+    for _, e in fn.elements():
+        if e['k'] != 'BinaryOperator' or e.get('op') not in ('<', '>', '<=', '>='):
+            continue
+        for x, y in ((0, 1), (1, 0)):
+            if fn.strip_all_casts(e['c'][y]).get('v') != 0:
+                continue
+            n = fn.N(e['c'][x])
+            # follow casts and single-definition locals down to a subtraction
+            signed_seen = False
+            for _i in range(12):
+                t = int_type(n.get('t'))
+                if t and t[1]:
+                    signed_seen = True
+                if (n['k'].endswith('CastExpr') or n['k'] in ('ParenExpr', 'ExprWithCleanups')) and n.get('c'):
+                    n = fn.N(n['c'][0])
+                elif n['k'] == 'DeclRefExpr' and n.get('vid') in fn.const_init:
+                    n = fn.N(fn.const_init[n['vid']])
+                else:
+                    break
+            if not signed_seen or n['k'] != 'BinaryOperator' or n.get('op') != '-':
+                continue
+            ops = []
+            for c in n['c']:
+                m = fn.N(c)
+                while m['k'] == 'ImplicitCastExpr' and m.get('ck') in ('LValueToRValue', 'NoOp', 'IntegralCast') and m.get('c'):
+                    inner = fn.N(m['c'][0])
+                    if m.get('ck') == 'IntegralCast' and int_type(inner.get('t')) and int_type(m.get('t')) and int_type(inner.get('t'))[0] < int_type(m.get('t'))[0]:
+                        m = inner       # a promotion: the operand's own type counts
+                        continue
+                    if m.get('ck') == 'IntegralCast':
+                        break
+                    m = inner
+                ops.append(int_type(m.get('t')))
+            if len(ops) == 2 and all(o and not o[1] and o[0] >= 32 for o in ops):
+                out.append((e, fn.render(n)))
+    return out
